@@ -695,6 +695,40 @@ fn range_audit(chk: &Check, cnt: &Counters) {
         }
     }
     cnt.evals.fetch_add(16384 * 9, Ordering::Relaxed);
+    // a third-party message whose status byte changes between two reads inside one call (a live
+    // view of an input buffer): every ordered pair of valid status bytes x starting phase; whatever
+    // an accessor returns must be in range (what it "should" return is undefined; a panic is not
+    // judged here)
+    let flaky_bad = AtomicU64::new(0);
+    (0x80..=0xFFu8).into_par_iter().for_each(|s1| {
+        for s2 in 0x80..=0xFFu8 {
+            for phase in 0..2u32 {
+                let mk = || crate::midi::ForeignFlaky { statuses: [s1, s2], d1: U7::try_from(127u8).unwrap(), d2: U7::try_from(100u8).unwrap(), calls: core::cell::Cell::new(phase) };
+                let checks: [&dyn Fn() -> bool; 8] = [
+                    &|| mk().channel().map_or(true, |c| c.get() <= 15),
+                    &|| mk().key_number().map_or(true, |c| c.get() <= 127),
+                    &|| mk().velocity().map_or(true, |c| c.get() <= 127),
+                    &|| mk().controller_number().map_or(true, |c| c.get() <= 127),
+                    &|| mk().program_number().map_or(true, |c| c.get() <= 127),
+                    &|| mk().pitch_bend_value().map_or(true, |c| c.get() <= 16383),
+                    &|| mk().to_structured().audit(),
+                    &|| {
+                        let r: RawShortMessage = mk().to_other();
+                        r.audit()
+                    },
+                ];
+                for (i, f) in checks.iter().enumerate() {
+                    if let Ok(false) = catch(|| f()) {
+                        if flaky_bad.fetch_add(1, Ordering::Relaxed) < 3 {
+                            let what = ["channel", "key_number", "velocity", "controller_number", "program_number", "pitch_bend_value", "to_structured", "to_other"][i];
+                            vio!(chk, "C04", "message-field-out-of-range", "changing-status-byte", format!("flaky|{}|{}|{}|{}", s1, s2, phase, i), "{}() of a third-party message whose status_byte() returns {:#04X} and {:#04X} alternately (starting at call {}) handed out an out-of-range value", what, s1, s2, phase);
+                        }
+                    }
+                }
+            }
+        }
+    });
+    cnt.evals.fetch_add(128 * 128 * 2 * 8, Ordering::Relaxed);
 }
 
 trait Audit {
@@ -719,7 +753,7 @@ impl<M: helgoboss_midi::ShortMessage> Audit for M {
 }
 
 pub fn run_c04(chk: &Check, tier: Tier) {
-    chk.rule("every conversion into each of the six restricted integer types over its source domain (8/16-bit and newtype sources complete; 32-bit complete in thorough; wider sources over the truncation alphabet {low 16 bits} x {high-bit patterns incl. sign extension}); `new` over every repr value under catch_unwind; all strings over a 14-symbol alphabet up to length 4 (6 thorough), all 7-bit ASCII strings up to length 3 (4 thorough), every Unicode scalar value alone / before / after a digit, every numeral up to 1 100 000, plus structured numerals; constants; range audit of message fields over all 2^21 triples and of encoder outputs over all 14-bit values. non-trivial = distinct (operation,input) cases whose input is OUT of range, i.e. that must be rejected");
+    chk.rule("every conversion into each of the six restricted integer types over its source domain (8/16-bit and newtype sources complete; 32-bit complete in thorough; wider sources over the truncation alphabet {low 16 bits} x {high-bit patterns incl. sign extension}); `new` over every repr value under catch_unwind; all strings over a 14-symbol alphabet up to length 4 (6 thorough), all 7-bit ASCII strings up to length 3 (4 thorough), every Unicode scalar value alone / before / after a digit, every numeral up to 1 100 000, plus structured numerals; constants; range audit of message fields over all 2^21 triples, of encoder outputs over all 14-bit values, and of every accessor of a third-party message whose status byte changes between reads (all ordered pairs of status bytes). non-trivial = distinct (operation,input) cases whose input is OUT of range, i.e. that must be rejected");
     let cnt = Counters { evals: AtomicU64::new(0), out_of_range_inputs: AtomicU64::new(0), in_range_inputs: AtomicU64::new(0) };
     check_new::<U4>(chk, &cnt);
     check_new::<U7>(chk, &cnt);
